@@ -215,9 +215,9 @@ func paramsFor(mode string) genParams {
 	p := genParams{Mode: mode, MaxLeaves: 8, MaxFlows: 4, MaxN: 4, MaxRuns: 3, MaxVisits: 14, PEmptyAct: 0.1}
 	switch mode {
 	case "plain": // successful paths with retries and fallbacks
-		p.PExecErr, p.PFbErr = 0.35, 0.0
+		p.PExecErr, p.PFbErr, p.PEres = 0.35, 0.0, 0.15
 	case "single": // one node, everything can fail
-		p.MaxLeaves, p.MaxFlows, p.MaxRuns, p.MaxN = 1, 0, 1, 8
+		p.MaxLeaves, p.MaxFlows, p.MaxRuns, p.MaxN = 1, 0, 3, 8 // up to three runs of the same node object
 		p.PPrepErr, p.PExecErr, p.PFbErr, p.PPostErr, p.PNil, p.PEres = 0.08, 0.6, 0.4, 0.1, 0.15, 0.2
 	case "err", "faultenum", "nilstart":
 		p.PPrepErr, p.PExecErr, p.PFbErr, p.PPostErr, p.PNil, p.PEres = 0.03, 0.4, 0.3, 0.03, 0.1, 0.1
